@@ -300,9 +300,19 @@ def masking(index: RepoIndex, rep, rule: str, pipe: Pipeline) -> None:
                     extra_parts.append(w.expand_formula(
                         formula_of(ren_.visit(copy.deepcopy(c_))), stop=[g, pipe.vis_name, pos]))
         only_hidden = False
+
+        def _unint(x: ast.AST) -> ast.AST:
+            # int(y) of a numpy integer index is the same index
+            if isinstance(x, ast.Call) and src(x.func) == 'int' and len(x.args) == 1 and \
+                    not x.keywords and isinstance(x.args[0], ast.Name):
+                return x.args[0]
+            return x
+        if isinstance(e.target.slice, ast.Tuple) and len(e.target.slice.elts) == 2 and \
+                any(_unint(x) is not x for x in e.target.slice.elts):
+            e.target.slice = ast.Tuple([_unint(x) for x in e.target.slice.elts], ast.Load())
         if not loop_ok and e.loops and isinstance(e.target.slice, ast.Tuple) and \
                 len(e.target.slice.elts) == 2 and \
-                src(e.loops[-1][0]) == src(e.target.slice):
+                src(e.loops[-1][0]) == ast.unparse(e.target.slice):
             # the loop visits exactly the cells where the visibility is false:
             # np.argwhere(np.logical_not(V)) (optionally .tolist()), zip(*np.nonzero(..))
             it_ = src(_strip_bool_casts(w.expand(e.loops[-1][1], stop=[g, pipe.vis_name])))
@@ -316,7 +326,7 @@ def masking(index: RepoIndex, rep, rule: str, pipe: Pipeline) -> None:
                 [f'np.transpose(np.nonzero({n_})).tolist()' for n_ in negs]
             if it_ in forms:
                 loop_ok = only_hidden = True
-                yx = tuple(src(x) for x in e.target.slice.elts)
+                yx = tuple(ast.unparse(x) for x in e.target.slice.elts)
         if not loop_ok and len(e.loops) >= 2 and isinstance(e.target.slice, ast.Tuple) and \
                 len(e.target.slice.elts) == 2:
             # nested loops over all rows and all columns of the observation grid
